@@ -64,6 +64,11 @@ def run(ctx, rep):
             if any(callee_name(x).endswith("BitRecorder::<N, E>::written") for x in a["calls"]) and any(o.startswith("Mul") for o in c["ops"]):
                 cc = [callee_name(x) for x in c["calls"]]
                 g = any(re.search(r"From<bitstream_io::SignedBitCount<MAX>> for u32>::from$|Into<U>>::into$", x) for x in cc)
+                # nothing else is done to the bound: one multiplication of the length by the effective depth
+                muls = [o for o in c["ops"] if o.startswith("Mul")]
+                other = [o for o in c["ops"] if not o.startswith("Mul") and o not in ("Eq", "Ne")]
+                extra_calls = [x for x in cc if re.search(r"div_ceil|next_multiple_of|next_power_of_two|::max$|::min$|saturating|wrapping", x)]
+                g = g and len(muls) == 1 and not other and not extra_calls
         rep.check("C19.guard", "the bound compared with is len x effective bits-per-sample", g, loc_of(b))
         # early exits
         consts = [t for _, t in b.calls() if strip_generics(callee_name(t)) == "encode::encode_constant_subframe"]
